@@ -113,7 +113,7 @@ func setScenarios(c *Ctx) ([]drive.SetScenario, []string) {
 			for i := range w {
 				w[i] = 3000
 			}
-			for k := 0; k < 60; k++ {
+			for k := 0; k < 250; k++ {
 				add("many-waiters", drive.SetScenario{Members: []render.SetMember{{P: taskProc("held", 1), Exec: true}}, HoldMs: 25, Waits: [][]int{w}})
 			}
 		}
@@ -149,6 +149,26 @@ func setScenarios(c *Ctx) ([]drive.SetScenario, []string) {
 		sc2 := drive.SetScenario{Members: []render.SetMember{{P: th2, Exec: true}, {P: cp, Exec: true}}, Waits: [][]int{{3000}}}
 		sc2.Flows = []render.MsgFlow{{Src: "P0_" + h2, Dst: "P1_" + cid}}
 		add("msgflow-catch", sc2)
+		// two throws (one token through two throw events) addressed to ONE catch event: the first
+		// wakes it, the second finds nothing listening and is dropped; the set completes
+		{
+			b := prog.NewBuilder("thrower2x")
+			s0 := b.AddNode("start", "")
+			t0 := b.AddNode("task", "")
+			ha := b.AddNode("throw", "")
+			b.N(ha).Evs = []prog.EvDef{{K: "message", Ref: "M"}}
+			hb := b.AddNode("throw", "")
+			b.N(hb).Evs = []prog.EvDef{{K: "message", Ref: "M"}}
+			e0 := b.AddNode("end", "")
+			b.Connect(s0, t0, prog.Cond{})
+			b.Connect(t0, ha, prog.Cond{})
+			b.Connect(ha, hb, prog.Cond{})
+			b.Connect(hb, e0, prog.Cond{})
+			cp2, cid2 := catchProc("catcher")
+			sc3 := drive.SetScenario{Members: []render.SetMember{{P: b.Done(), Exec: true}, {P: cp2, Exec: true}}, Waits: [][]int{{3000}, {3000}}}
+			sc3.Flows = []render.MsgFlow{{Src: "P0_" + ha, Dst: "P1_" + cid2}, {Src: "P0_" + hb, Dst: "P1_" + cid2}}
+			add("msgflow-catch-twice", sc3)
+		}
 	}
 	return out, tags
 }
